@@ -64,10 +64,12 @@ def checkFormat (m : Mat) : Except PyErr Unit :=
   if m.nnz == 0 then .error .valueError else .ok ()
 
 /-- `get_adjacency(input_matrix, force_bipartite=…)` (allow_directed=True, force_directed=False) -/
-def getAdjacency (m : Mat) (forceBipartite : Bool) : Except PyErr (Mat × Bool) := do
-  checkFormat m
-  let bipartite := forceBipartite || !m.isSquare
-  if bipartite then pure (m.block, true) else pure (m, false)
+def getAdjacency (m : Mat) (forceBipartite : Bool) : Except PyErr (Mat × Bool) :=
+  match checkFormat m with
+  | .error e => .error e
+  | .ok () =>
+    let bipartite := forceBipartite || !m.isSquare
+    if bipartite then .ok (m.block, true) else .ok (m, false)
 
 /-! ### numpy helpers on label vectors -/
 
@@ -94,15 +96,19 @@ abbrev CC := Mat → Bool → List Nat
 
 /-- `get_connected_components(input_matrix, connection, force_bipartite)` -/
 def getConnectedComponents (cc : CC) (m : Mat) (strong : Bool) (forceBipartite : Bool) :
-    Except PyErr (List Nat) := do
-  checkFormat m                                   -- check_format, then `len(input_matrix.data) == 0`
-  let (adjacency, _) ← getAdjacency m forceBipartite
-  pure (cc adjacency strong)
+    Except PyErr (List Nat) :=
+  match checkFormat m with                        -- check_format, then `len(input_matrix.data) == 0`
+  | .error e => .error e
+  | .ok () =>
+    match getAdjacency m forceBipartite with
+    | .error e => .error e
+    | .ok (adjacency, _) => .ok (cc adjacency strong)
 
 /-- `is_connected`: `len(set(labels)) == 1` -/
-def isConnected (cc : CC) (m : Mat) (strong : Bool) (forceBipartite : Bool) : Except PyErr Bool := do
-  let labels ← getConnectedComponents cc m strong forceBipartite
-  pure ((npUnique labels).length == 1)
+def isConnected (cc : CC) (m : Mat) (strong : Bool) (forceBipartite : Bool) : Except PyErr Bool :=
+  match getConnectedComponents cc m strong forceBipartite with
+  | .error e => .error e
+  | .ok labels => .ok ((npUnique labels).length == 1)
 
 /-! ### get_largest_connected_component -/
 
@@ -120,20 +126,23 @@ deriving Repr
 
 /-- `get_largest_connected_component(input_matrix, connection, force_bipartite, return_index=True)` -/
 def getLargestConnectedComponent (cc : CC) (m : Mat) (strong : Bool) (forceBipartite : Bool) :
-    Except PyErr Largest := do
-  checkFormat m
-  let (adjacency, bipartite) ← getAdjacency m forceBipartite
-  let labels ← getConnectedComponents cc adjacency strong false
-  let uniqueLabels := npUnique labels
-  let counts := uniqueLabels.map fun v => labels.count v
-  let largest := uniqueLabels.getD (argmax counts) 0
-  if bipartite then
-    let indexRow := argwhereEq (labels.take m.nRow) largest
-    let indexCol := argwhereEq (labels.drop m.nRow) largest
-    pure ⟨subMatrix m indexRow indexCol, indexRow ++ indexCol, indexRow.length⟩
-  else
-    let index := argwhereEq labels largest
-    pure ⟨subMatrix m index index, index, index.length⟩
+    Except PyErr Largest :=
+  match getAdjacency m forceBipartite with        -- (check_format first: the same refusal)
+  | .error e => .error e
+  | .ok (adjacency, bipartite) =>
+    match getConnectedComponents cc adjacency strong false with
+    | .error e => .error e
+    | .ok labels =>
+      let uniqueLabels := npUnique labels
+      let counts := uniqueLabels.map fun v => labels.count v
+      let largest := uniqueLabels.getD (argmax counts) 0
+      if bipartite then
+        let indexRow := argwhereEq (labels.take m.nRow) largest
+        let indexCol := argwhereEq (labels.drop m.nRow) largest
+        .ok ⟨subMatrix m indexRow indexCol, indexRow ++ indexCol, indexRow.length⟩
+      else
+        let index := argwhereEq labels largest
+        .ok ⟨subMatrix m index index, index, index.length⟩
 
 /-! ### is_bipartite -/
 
